@@ -55,7 +55,12 @@ _Rb_tree_node_base* _Rb_tree_rebalance_for_erase(_Rb_tree_node_base* const z, _R
 }
 namespace __detail {
 struct _List_node_base { _List_node_base* _M_next; _List_node_base* _M_prev;
-  void _M_hook(_List_node_base* const p) throw(); void _M_unhook() throw(); void _M_transfer(_List_node_base* const f, _List_node_base* const l) throw(); };
+  void _M_hook(_List_node_base* const p) throw(); void _M_unhook() throw(); void _M_transfer(_List_node_base* const f, _List_node_base* const l) throw(); void _M_reverse() throw(); static void swap(_List_node_base& x, _List_node_base& y) throw(); };
+void _List_node_base::swap(_List_node_base& x, _List_node_base& y) throw() {
+  if (x._M_next != &x) { if (y._M_next != &y) { _List_node_base* t = x._M_next; x._M_next = y._M_next; y._M_next = t; t = x._M_prev; x._M_prev = y._M_prev; y._M_prev = t; x._M_next->_M_prev = x._M_prev->_M_next = &x; y._M_next->_M_prev = y._M_prev->_M_next = &y; }
+    else { y._M_next = x._M_next; y._M_prev = x._M_prev; y._M_next->_M_prev = y._M_prev->_M_next = &y; x._M_next = x._M_prev = &x; } }
+  else if (y._M_next != &y) { x._M_next = y._M_next; x._M_prev = y._M_prev; x._M_next->_M_prev = x._M_prev->_M_next = &x; y._M_next = y._M_prev = &y; } }
+void _List_node_base::_M_reverse() throw() { _List_node_base* t = this; do { _List_node_base* n = t->_M_next; t->_M_next = t->_M_prev; t->_M_prev = n; t = t->_M_prev; } while (t != this); }
 void _List_node_base::_M_hook(_List_node_base* const p) throw() { _M_next = p; _M_prev = p->_M_prev; p->_M_prev->_M_next = this; p->_M_prev = this; }
 void _List_node_base::_M_unhook() throw() { _List_node_base* n = _M_next; _List_node_base* p = _M_prev; p->_M_next = n; n->_M_prev = p; }
 void _List_node_base::_M_transfer(_List_node_base* const first, _List_node_base* const last) throw() { if (this != last) { last->_M_prev->_M_next = this; first->_M_prev->_M_next = last; _M_prev->_M_next = first; _List_node_base* const t = _M_prev; _M_prev = last->_M_prev; last->_M_prev = first->_M_prev; first->_M_prev = t; } }
